@@ -128,7 +128,11 @@ class LoopMixin:
         # ---- entry
         self.loop_entry = getattr(self, 'loop_entry', [])
         self.loop_entry.append((self.st.snapshot(), dict(self.frame_env(fr))))
+        ct0 = getattr(self, 'current_contract', None)
+        trusted = set(ct0.extra.get('assumed_clauses', ())) if ct0 is not None else set()
         for cl, f in inv_formula(z3.IntVal(0)):
+            if cl.name in trusted:
+                continue                # an ASSUMED loop invariant (listed in the trusted base): used, never proved
             self.oblige('invariant-entry', f'{name}: {cl.name} holds on entry', f, self.ct_props(cl.name))
         n = n_of()
         options = ['step', 'exit'] if (n is not None or not is_for) else ['step']
@@ -176,6 +180,8 @@ class LoopMixin:
         except ContinueSig:
             pass
         for cl, f in inv_formula(k + 1):
+            if cl.name in trusted:
+                continue
             self.oblige('invariant-step', f'{name}: {cl.name} is preserved by one iteration', f,
                         self.ct_props(cl.name))
         fh = getattr(self, 'frame_hook', None)
